@@ -205,12 +205,19 @@ fn direct(case: &Value, obs: &mut Obs) -> Res {
     check(&q, &text, &doc, obs)
 }
 
+/// "object members in the document's own member order": a data type that keeps its members in insertion
+/// order (not sorted, unlike the default serde_json::Value) must see them visited in that order
+fn random_member_order_of_the_view(src: &mut Src, obs: &mut Obs) -> Res {
+    crate::props::c15::unsorted_case(src, obs, ID, true)
+}
+
 pub fn prop() -> Prop {
     Prop {
         id: ID,
         rule: "random (document, query) pairs biased to multi-selector segments, segments with several input nodes, negative slice steps and descendants; \
                exact sequence comparison with the reference evaluator (breadth-first descendant order accepted as the RFC permits it). \
-               Non-trivial: the result has >= 2 nodes and some segment received > 1 input node or has > 1 selector. Distinct by (query text, document text).",
+               Non-trivial: the result has >= 2 nodes and some segment received > 1 input node or has > 1 selector. Distinct by (query text, document text). \
+               The same queries on a harness type implementing Queryable whose members are kept in a shuffled insertion order: the result must follow that order (locations by address against the reference evaluator run on that order).",
         assumptions: vec![
             "reference semantics in harness/src/oracle.rs (self-tested on the RFC tables); descendants in pre-order, members in the document's own (sorted, for serde_json::Value) order",
             "a breadth-first visiting order of a descendant segment is accepted as valid (RFC 9535 2.5.2.2); any other order is reported",
@@ -222,6 +229,7 @@ pub fn prop() -> Prop {
                 name: "random-order",
                 kind: Kind::Random { f: random_order, quick: 200_000, thorough: 4_000_000, len: 400 },
             },
+            Sub { name: "random-member-order-of-the-view", kind: Kind::Random { f: random_member_order_of_the_view, quick: 100_000, thorough: 2_000_000, len: 500 } },
             Sub {
                 name: "random-k1-free",
                 kind: Kind::Random { f: random_no_k1, quick: 200_000, thorough: 4_000_000, len: 400 },
